@@ -13,7 +13,7 @@
     escan <h|s|z> <cursor> <count> <pat|~> <novalues 0|1> -> <next> <items> <fast 0|1>
     glob <pattern> <text>                  -> <code 0|1> <spec 0|1>
     cmd <name|arg|arg...>                  -> err | <next> <items> [<fast>]
-    cfg <default> <cap> <factor> <lossy> <slot> -> ok          (Lean side only: the constants of `Gen.scanCfg`,
+    cfg <default> <cap> <factor> <lossy> <slot> <typefold> -> ok          (Lean side only: the constants of `Gen.scanCfg`,
                                                           sent by the check so that the driver builds even
                                                           when the translator no longer recognises the source)
   The impl side prints neither the `fast` flag nor the `spec` verdict.
@@ -24,7 +24,7 @@ namespace Ferrous.Drv.Scan
 open Ferrous Ferrous.Drv Ferrous.Scan
 
 structure St where
-  g : Cfg := ⟨10, 1000, 10, false, false⟩
+  g : Cfg := ⟨10, 1000, 10, false, true, true⟩
   db : Db := []
   h : List (Bytes × Bytes) := []
   s : List Bytes := []
@@ -94,10 +94,11 @@ def cmdColl (st : St) (kind : String) (args : List Bytes) : String :=
 def step (st : St) (ws : List String) : St × String :=
   match ws with
   | ["reset"] => ({ g := st.g }, "ok")
-  | ["cfg", d, c, f, l, sl] =>
+  | ["cfg", d, c, f, l, sl, tf] =>
     match d.toNat?, c.toNat?, f.toNat? with
     | some d, some c, some f =>
-      if (l == "1" || l == "0") && (sl == "1" || sl == "0") then ({ st with g := ⟨d, c, f, l == "1", sl == "1"⟩ }, "ok")
+      if (l == "1" || l == "0") && (sl == "1" || sl == "0") && (tf == "1" || tf == "0") then
+        ({ st with g := ⟨d, c, f, l == "1", sl == "1", tf == "1"⟩ }, "ok")
       else (st, "bad-op")
     | _, _, _ => (st, "bad-op")
   | ["add", ty, k] =>
